@@ -162,6 +162,14 @@ func runC12(r *vf.Run) {
 				}
 				r.Max("rows_in_one_result", int64(len(got.Rows)))
 			}
+			// the same text as a prepared statement executed twice, the first time read only partially: what a statement
+			// or a connection remembers from one execution must not leak into the next
+			if !want.Err && syntaxOK && qi%3 == 0 {
+				if d := preparedTwice(dbs[dsnOptionSets[qi%len(dsnOptionSets)].name], text, args, want, gb); d != "" {
+					r.Violation(qid, "prepared-twice", map[string]any{"text": fmt.Sprintf("%q", text), "args": fmt.Sprintf("%q", strArgs), "problem": d})
+				}
+				r.Count("prepared_statements_executed_twice", 1)
+			}
 			// typed scan of the same result: string..., int64
 			if !want.Err && syntaxOK && qi%4 == 0 {
 				if d := typedScan(dbs["none"], text, args, want, gb); d != "" {
@@ -229,4 +237,49 @@ func typedScan(db *sql.DB, text string, args []any, want oracle.Answer, gb []str
 		return fmt.Sprintf("%d rows, want %d", i, len(exp.Rows))
 	}
 	return ""
+}
+
+func preparedTwice(db *sql.DB, text string, args []any, want oracle.Answer, gb []string) (problem string) {
+	if p, msg, _ := vf.Try(func() {
+		st, err := db.Prepare(text)
+		if err != nil {
+			problem = "Prepare failed: " + err.Error()
+			return
+		}
+		defer st.Close()
+		exp := expectedTable(want, gb)
+		for round := 1; round <= 3; round++ {
+			rows, err := st.Query(args...)
+			if err != nil {
+				problem = fmt.Sprintf("execution %d failed: %v", round, err)
+				return
+			}
+			if round == 1 && len(exp.Rows) > 1 {
+				// read one row only, then give the rows back early
+				if rows.Next() {
+					cols, _ := rows.Columns()
+					if len(cols) != len(exp.Cols) {
+						problem = fmt.Sprintf("execution 1: %d columns, want %d", len(cols), len(exp.Cols))
+					}
+				}
+				rows.Close()
+				if problem != "" {
+					return
+				}
+				continue
+			}
+			got, rerr := readRows(rows)
+			if rerr != nil {
+				problem = fmt.Sprintf("execution %d: %v", round, rerr)
+				return
+			}
+			if d := compareTables(got, exp); d != "" {
+				problem = fmt.Sprintf("execution %d of the prepared statement: %s", round, d)
+				return
+			}
+		}
+	}); p {
+		return "panic: " + msg
+	}
+	return problem
 }
